@@ -455,6 +455,18 @@ func nego(name, sup string) string {
 // ---------- one op on the real code ----------
 
 func exec(op string) (res string) {
+	if os.Getenv("VERIF_C18_SLOW") != "" { // diagnostics only: which ops take long (stderr)
+		t0 := time.Now()
+		defer func() {
+			if d := time.Since(t0); d > time.Second {
+				l := op
+				if len(l) > 300 {
+					l = l[:300]
+				}
+				fmt.Fprintf(os.Stderr, "slow op %v: %s => %.200s\n", d, l, res)
+			}
+		}()
+	}
 	defer func() {
 		if r := recover(); r != nil {
 			res = fmt.Sprintf("crash:%v", r)
